@@ -138,9 +138,10 @@ def opsCodec : Handler := fun st toks =>
     let cyc ← parseSched sc
     let total := Spec.encode sl.s
     let w : SWriter := { accRev := [], room := k, zeroMode := zero, sched := expandSched cyc (total.length + 2) }
-    let r := Bitmap.serializeInto sl.m w
     let show_ (ok : Bool) (bs : List Nat) := (if ok then "ok" else "err") ++ s!" n={bs.length} sh={hex64 (fnv bs)}"
-    pure (st, specMark (show_ r.1 r.2.bytes) (show_ (decide (total.length ≤ k)) (total.take k)))
+    match Bitmap.serializeIntoM st.dbg sl.m w with
+    | some r => pure (st, specMark (show_ r.1 r.2.bytes) (show_ (decide (total.length ≤ k)) (total.take k)))
+    | none => pure (st, specMark "panic" (show_ (decide (total.length ≤ k)) (total.take k)))
   | ["inter_ser", d, l, h] => do
     let i ← parseSlot 'b' d; let (_, sl) ← b? l
     let bytes ← parseHex h
